@@ -4,65 +4,9 @@ package PKGNAME
 
 import (
 	"context"
-	"strconv"
 
 	"go.opentelemetry.io/collector/exporter/exporterhelper/internal/sizer"
-	"go.opentelemetry.io/collector/pdata/pcommon"
-	"go.opentelemetry.io/collector/pdata/ptrace"
 )
-
-type vc04Span struct {
-	id                       uint64
-	rattr, rschema           string
-	sname, sversion, sschema string
-}
-
-func vc04BuildTraces(tag string, nextID *uint64, maxL int) (ptrace.Traces, []vc04Span) {
-	td := ptrace.NewTraces()
-	var items []vc04Span
-	nr := 1 + vChoice(tag+"-resources", 2)
-	for r := 0; r < nr; r++ {
-		rs := td.ResourceSpans().AppendEmpty()
-		rattr := tag + "r" + strconv.Itoa(r)
-		rs.Resource().Attributes().PutStr("res", rattr)
-		rs.SetSchemaUrl("rs:" + rattr)
-		ns := 1 + vChoice(tag+"-scopes", 2)
-		for s := 0; s < ns; s++ {
-			ss := rs.ScopeSpans().AppendEmpty()
-			sname := rattr + "s" + strconv.Itoa(s)
-			ss.Scope().SetName(sname)
-			ss.Scope().SetVersion("v" + sname)
-			ss.SetSchemaUrl("ss:" + sname)
-			nl := 1 + vChoice(tag+"-spans", maxL)
-			for l := 0; l < nl; l++ {
-				sp := ss.Spans().AppendEmpty()
-				*nextID++
-				sp.SetStartTimestamp(pcommon.Timestamp(*nextID))
-				items = append(items, vc04Span{id: *nextID, rattr: rattr, rschema: "rs:" + rattr, sname: sname, sversion: "v" + sname, sschema: "ss:" + sname})
-			}
-		}
-	}
-	return td, items
-}
-
-func vc04FlattenTraces(td ptrace.Traces) []vc04Span {
-	var out []vc04Span
-	for r := 0; r < td.ResourceSpans().Len(); r++ {
-		rs := td.ResourceSpans().At(r)
-		rattr := ""
-		if v, ok := rs.Resource().Attributes().Get("res"); ok {
-			rattr = v.Str()
-		}
-		for s := 0; s < rs.ScopeSpans().Len(); s++ {
-			ss := rs.ScopeSpans().At(s)
-			for l := 0; l < ss.Spans().Len(); l++ {
-				out = append(out, vc04Span{id: uint64(ss.Spans().At(l).StartTimestamp()), rattr: rattr, rschema: rs.SchemaUrl(),
-					sname: ss.Scope().Name(), sversion: ss.Scope().Version(), sschema: ss.SchemaUrl()})
-			}
-		}
-	}
-	return out
-}
 
 func VerifC04TracesItems() {
 	var id uint64
